@@ -3,6 +3,7 @@ package c22
 import (
 	"fmt"
 	"math"
+	"sort"
 	"strings"
 	"testing"
 
@@ -74,6 +75,39 @@ func gen22(seed int64, tier string) []drv.Case {
 			}
 		}
 		add("huge-offsets", params{Mode: "huge", Seq: seq, Base: base})
+	}
+	// enormous tracked ranges and gaps (sparse files): lengths and distances around 2^31, 2^32, 2^53 (where a float64
+	// stops being exact) and 2^62, odd values included; judged against an interval model, not a bitmap
+	ns := 150
+	if tier == "thorough" {
+		ns = 6000
+	}
+	rs := gen.Rand(seed, "c22-spans")
+	bigs := []int64{1 << 31, 1 << 32, 1 << 53, 1 << 53, 1 << 54, 1 << 60, 1 << 62}
+	big := func() int64 { return bigs[rs.Intn(len(bigs))] + int64(rs.Intn(9)) - 4 }
+	for i := 0; i < ns; i++ {
+		var seq []write
+		for j := 0; j < 1+rs.Intn(5); j++ {
+			var off, l int64
+			switch rs.Intn(4) {
+			case 0:
+				off = int64(rs.Intn(30))
+			case 1:
+				off = big()
+			default:
+				off = big() + int64(rs.Intn(1<<20))
+			}
+			if rs.Intn(2) == 0 {
+				l = 1 + int64(rs.Intn(40))
+			} else {
+				l = big()
+			}
+			if off > math.MaxInt64-l-2 {
+				l = math.MaxInt64 - off - 2 - int64(rs.Intn(5))
+			}
+			seq = append(seq, write{off, l})
+		}
+		add("huge-spans", params{Mode: "spans", Seq: seq})
 	}
 	// random long sequences
 	n := 400
@@ -197,6 +231,87 @@ func run22(c drv.Case, res *drv.Result) {
 		res.Violate(kind, sig, "after writes %s: %s", seqStr(seq), msg)
 	}
 	switch p.Mode {
+	case "spans":
+		t := filetracker.VerifNewTFile()
+		var iv [][2]int64 // disjoint, sorted, non-adjacent union of the writes
+		in := func(o int64) bool {
+			for _, x := range iv {
+				if o >= x[0] && o < x[1] {
+					return true
+				}
+			}
+			return false
+		}
+		next := func(o int64) int64 { // first offset > o where the classification changes (MaxInt64: none)
+			for _, x := range iv {
+				if o < x[0] {
+					return x[0]
+				}
+				if o < x[1] {
+					return x[1]
+				}
+			}
+			return math.MaxInt64
+		}
+		for wi, w := range p.Seq {
+			t.VerifTrackWrite(w.Off, w.Len)
+			lo, hi := w.Off, w.Off+w.Len
+			var merged [][2]int64
+			for _, x := range iv {
+				if x[1] < lo || x[0] > hi {
+					merged = append(merged, x)
+					continue
+				}
+				if x[0] < lo {
+					lo = x[0]
+				}
+				if x[1] > hi {
+					hi = x[1]
+				}
+			}
+			merged = append(merged, [2]int64{lo, hi})
+			sort.Slice(merged, func(a, b int) bool { return merged[a][0] < merged[b][0] })
+			iv = merged
+			var cells []int64
+			for _, x := range iv {
+				for d := int64(-2); d <= 2; d++ {
+					cells = append(cells, x[0]+d, x[1]+d)
+				}
+			}
+			cells = append(cells, 0, 1)
+			for _, o := range cells {
+				if o < 0 || o >= math.MaxInt64-2 {
+					continue
+				}
+				dist := next(o) - o
+				for _, L := range []int64{1, 2, dist - 1, dist, dist + 1, dist + 2, 1<<53 + 1, math.MaxInt64 - o} {
+					if L < 1 || L > math.MaxInt64-o {
+						continue
+					}
+					queries++
+					n, mod := t.VerifGetRangeToRead(o, L)
+					bad := ""
+					switch {
+					case mod != in(o) && in(o):
+						bad = "modified-reported-as-base"
+					case mod != in(o):
+						bad = "base-reported-as-modified"
+					case n < 1 || n > L:
+						bad = "bad-length"
+					case n > dist:
+						bad = "range-crosses-boundary"
+					}
+					if bad != "" {
+						res.Violate(bad, "huge-spans", "after writes %s: getRangeToRead(%d,%d)=(%d,modified=%v), offset written=%v, next boundary at %d (distance %d)", seqStr(p.Seq[:wi+1]), o, L, n, mod, in(o), next(o), dist)
+						res.Canon = seqStr(p.Seq)
+						return
+					}
+				}
+			}
+		}
+		res.Nontrivial = true
+		res.Canon = seqStr(p.Seq)
+		res.Sample = map[string]interface{}{"writes": seqStr(p.Seq), "queries": queries}
 	case "huge":
 		t := filetracker.VerifNewTFile()
 		written := map[int64]bool{}
